@@ -6,6 +6,7 @@ import Hive.Proofs.TypedGate
 import Hive.Gen.C06_Skel
 import Hive.Proofs.TypedCode
 import Hive.Proofs.TypedUpgrade
+import Hive.Proofs.TypedOwn
 /-!
 # C06 — TypedValue / TypedStore are transparent, error-faithful typed views
 
@@ -71,6 +72,55 @@ histories against `Hive/Model/TypedRef.lean` (this model with a heap-dependent c
 theorem C06_stored_is_last_written_aliasing (s : St V) (h : List (Codec V × Op V × Faults)) :
     (runV s h).1.store = rawAfter s.store ((h.zip (runV s h).2).map fun x => (x.1.1, x.1.2.1, x.2)) :=
   store_runV s h
+
+/-- **Ownership: what `Compute` hands to its function and what ends up in the cache.**  The aliasing assumption above
+concerns objects the *caller* keeps; this theorem is about the object the *function* works on.  In every reachable
+state (any codec, history, fault vector):
+(1) `Compute` uses its function through exactly one application `f cur ex` — or none, when the store read or the decode
+failed — and `cur` is the value **this call's own decode produced from the stored bytes** (`ex = true`) or the zero value
+(`ex = false`); it is never taken from the cache, although a value may be cached.  So for a reference-typed `V` the
+function owns what it is handed: updating it in place and then aborting with `ErrTypedValueNotChanged` or failing
+cannot show through the cache (which `C06_failure_atomic` says is unchanged *as a reference*).
+(2) What the cache holds afterwards is what the callers handed over: a successful `Compute` caches and returns exactly
+the value its function returned, `Get` returns the cached value itself, a successful `Set` caches the value it was
+given — these are the objects the aliasing assumption is about. -/
+theorem C06_compute_ownership (C : Codec V) (hrt : C.RoundTrip) (raw : Option Bytes) (h : List (Op V × Faults)) (F : Faults) :
+    let s := final C (fresh raw) h
+    ((∃ o tr, computeRead C s F = .exit o tr ∧ ∀ f g, compute C s f F = compute C s g F) ∨
+     (∃ cur ex tr, computeRead C s F = .go cur ex tr ∧
+        (∀ f g, f cur ex = g cur ex → compute C s f F = compute C s g F) ∧
+        ((ex = true ∧ ∃ b, s.store = some b ∧ decF C F b = some cur ∧ (⟨.dec, .ok⟩ : Ev) ∈ tr) ∨ (ex = false ∧ cur = default)))) ∧
+    (∀ f nv, (compute C s f F).out = .computed nv true → (compute C s f F).st.cv = some nv) ∧
+    (∀ v, (get C s F).out = .val v → (get C s F).st.cv = some v) ∧
+    (∀ v, (set C s v F).out = .ok → (set C s v F).st.cv = some v) := by
+  intro s
+  have hb : CacheBacked s := (C06_cache_coherent C hrt raw h).1.cacheBacked
+  refine ⟨?_, cache_holds_given C s F⟩
+  rcases compute_calls_fn_once C s F with hx | ⟨cur, ex, tr, hr, hf⟩
+  · exact .inl hx
+  · exact .inr ⟨cur, ex, tr, hr, hf, computeRead_provenance hb hr⟩
+
+/-- The same for `TypedValue[*T]` in terms of object identity (`Hive/Model/TypedRef.lean`: decoding allocates the
+fresh object `nxt`): whenever a cached object is backed by the store (`CacheBacked`, part of coherence), the function is
+handed the object this call allocated — not the cached one, not one the caller holds — or nil.  The differential run
+observes exactly this (`alias=` flags `fa`/`fg`/`fc` of the `tp` lines; the Go oracle `callback-argument-aliased`). -/
+theorem C06_compute_argument_fresh (henc : List (Ref × UInt64)) (nxt : Ref) (s : St Ref) (hb : CacheBacked s) (F : Faults)
+    (cur : Ref) (ex : Bool) (tr : List Ev) (h : computeRead (refCodec henc nxt) s F = .go cur ex tr) :
+    ((ex = true ∧ cur = nxt) ∨ (ex = false ∧ cur = 0)) ∧
+    (∀ c, s.cv = some c → c < nxt → ex = true → cur ≠ c) := by
+  have h1 := ref_argument_fresh henc nxt s hb F cur ex tr h
+  refine ⟨h1, fun c _ hlt hex => ?_⟩
+  rcases h1 with ⟨_, rfl⟩ | ⟨he, _⟩
+  · exact Nat.ne_of_gt hlt
+  · simp [hex] at he
+
+/-- The hypothesis is satisfiable by a state with a cached object: object 1 cached over stored bytes, the function is
+handed the fresh object 3. -/
+example : CacheBacked ({ store := some (be8 5), cv := some 1, ch := some true } : St Ref) ∧
+    (match computeRead (refCodec [(1, 5)] 3) { store := some (be8 5), cv := some 1, ch := some true } {} with
+     | .go cur ex _ => (cur, ex)
+     | .exit _ _ => (0, false)) = (3, true) := by
+  refine ⟨fun v hv => by simp, by decide⟩
 
 /-- **Every failure is reported and leaves store and cache unchanged.**  In *any* state, for every
 operation and fault vector: (1) if any call made by the operation failed — a store call, the
